@@ -12,7 +12,7 @@ import (
 )
 
 // DataClass names a family of plaintexts; Make realises one member.
-var DataClasses = []string{"empty", "one", "zeros", "zeroprefix", "run", "random", "text", "periodic", "xx", "alternating", "sparse", "ramp", "nearrandom", "lowentropy", "randomrepeats", "farrepeat"}
+var DataClasses = []string{"empty", "one", "zeros", "zeroprefix", "run", "random", "text", "periodic", "xx", "alternating", "sparse", "ramp", "nearrandom", "lowentropy", "randomrepeats", "farrepeat", "maxlenruns"}
 
 // MakeData builds a plaintext of roughly n bytes from a class and a seed.
 func MakeData(class string, n int, seed int64) []byte {
@@ -95,6 +95,33 @@ func MakeData(class string, n int, seed int64) []byte {
 			copy(b[n-300:], b[:300])
 		}
 		return b
+	case "maxlenruns":
+		// a few literals, then a unit of 1..9 bytes repeated to exactly unit+273+d bytes (d = 0..3):
+		// the match is cut at the maximum length and continued by a short repetition or a
+		// repetition match of 1..3 bytes, i.e. every "operation directly after a simple match"
+		// transition of the state machine (7 -> 11 for the short repetition)
+		b := make([]byte, 0, n+600)
+		for k := 0; len(b) < n; k++ {
+			lit := make([]byte, 3+r.Intn(18))
+			r.Read(lit)
+			b = append(b, lit...)
+			unit := make([]byte, 1+r.Intn(9))
+			r.Read(unit)
+			if k%5 == 4 {
+				unit = make([]byte, 10+r.Intn(300)) // longer periods: other position states
+				r.Read(unit)
+			}
+			total := len(unit) + 273 + (k+int(seed))%4
+			if k%7 == 6 {
+				total += 273 // two maximal matches in a row, then the tail
+			}
+			for i := 0; i < total; i++ {
+				b = append(b, unit[i%len(unit)])
+			}
+		}
+		return b[:n]
+	case "ladder", "laddertext":
+		return makeLadder(class == "laddertext", n, seed, r)
 	case "randomrepeats":
 		// incompressible as a whole (stored raw), but with a few embedded repetitions of 20..300
 		// bytes: the discarded LZMA encoding of the chunk has used long matches
@@ -140,6 +167,66 @@ func MakeData(class string, n int, seed int64) []byte {
 		return b
 	}
 	panic("unknown data class " + class)
+}
+
+// makeLadder builds a plaintext of n bytes with one repeat of a unique 48-byte block at every
+// match-distance class the coder distinguishes: for every bit length e >= 8 and both halves of
+// it (distance slots 2e and 2e+1) one distance D = 2^e + h*2^(e-1) + j with j = 0, 1 (the two
+// sides of the slot boundary: the coder works with D-1) or a small random offset, rotating with
+// the seed, for as many classes as fit into n.  First copies are nested at the start (largest
+// distance first), second copies follow in increasing distance; the filler is zeros (cheap for
+// the hash-table match finder) or text (for the binary-tree one, which is quadratic on runs).
+func makeLadder(text bool, n int, seed int64, r *rand.Rand) []byte {
+	const L = 48
+	var ds []int
+	for e := 8; e < 31; e++ {
+		for h := 0; h < 2; h++ {
+			base := 1<<uint(e) + h<<uint(e-1)
+			j := 0
+			switch (int(seed%3+3) + e + h) % 3 {
+			case 1:
+				j = 1
+			case 2:
+				j = 2 + r.Intn(base/16)
+			}
+			ds = append(ds, base+j)
+		}
+	}
+	// keep the classes that fit: the second copy of block j ends at L*(k-j) + D_j + L <= n
+	k := 0
+	for k < len(ds) && L*(k+1)+ds[k]+L <= n {
+		k++
+	}
+	b := make([]byte, n)
+	if text {
+		fillText(r, b)
+	}
+	for j := 1; j <= k; j++ {
+		y := make([]byte, L)
+		r.Read(y)
+		for i := range y {
+			y[i] |= 0x80 // neither zero filler nor text contains such bytes
+		}
+		a := L * (k - j)
+		copy(b[a:], y)
+		copy(b[a+ds[j-1]:], y)
+	}
+	return b
+}
+
+// LadderDistances returns the distances makeLadder plants for (n, seed) - used to check from
+// the decoded operations that the writer under test really used them.
+func LadderSlots(n int) int {
+	const L = 48
+	k := 0
+	for e := 8; e < 31; e++ {
+		for h := 0; h < 2; h++ {
+			if L*(k+1)+(1<<uint(e)+h<<uint(e-1))+L+2+(1<<uint(e))/16 <= n {
+				k++
+			}
+		}
+	}
+	return k
 }
 
 var words = strings.Fields("the of and to in is that for it as was with be by on not he this are or his from at which but have an had they you were their one all we can her has there been if more when will would who so no out up into than them only its time some could these two may then do first any my now such like our over man me even most made after also did many before must through back years where much your way well down should because each just those people how too little state good very make world still own see men work long get here between both life being under never day same another know while last might us great old year off come since against go came right used take three")
